@@ -84,7 +84,10 @@ class World:
             if self.c.get("proxy") and not getattr(self, "proxy_answered", False):
                 self.proxy_connect()
             out = self.hs_out.split(b"\r\n\r\n", 1)[1] if self.c.get("proxy") else self.hs_out
-            key = dict(wsutil.split_http(out)[1]).get("sec-websocket-key")
+            parsed = wsutil.split_http(out)
+            if parsed is None and self.ep.drop_requested:
+                return          # the endpoint has already given up (deadline passed): nothing the peer sends now matters
+            key = dict(parsed[1]).get("sec-websocket-key") if parsed else None
             if key is None:
                 raise Violation("C17|open|no-websocket-request-after-proxy-connect" if self.c.get("proxy") else "C17|open|no-websocket-request", repr(self.hs_out[:200]), self.c)
             self.ep.feed(wsutil.raw_response(key))
@@ -134,6 +137,10 @@ class World:
     def advance_answering(self, t, answered_upto):
         """like advance_to, but every ping written after index `answered_upto` is answered at once with its pong"""
         n = answered_upto
+        pings = [f for _, f in self.frames if f.opcode == 9]
+        while n < len(pings):       # pings already written when we get here are answered first
+            self.feed(self.frame(10, pings[n].payload))
+            n += 1
         while self.d.now() < t - 1e-9:
             nxt = self.d.next_deadline()
             target = t if nxt is None or nxt > t else max(nxt, self.d.now() + 1e-6)
@@ -368,9 +375,20 @@ def sc_ping(c):
                 break
             if c["answer"] == "data" and (c["restart"] or data_does_not_count):
                 w.feed(w.frame(1, b"traffic"))
+            elif c["answer"] == "data+pong" and c["restart"]:
+                # the peer reacts to the same ping twice: a data frame (which counts as the answer and restarts the interval) and, a moment
+                # later and still before the deadline, the matching pong (which refers to a ping that is no longer outstanding)
+                w.feed(w.frame(1, b"traffic"))
+                t_data = w.d.now()
+                w.advance_to(t_data + min(0.25, max(0.0, (tp + T) - t_data - 0.01)))
+                if not w.ep.loss_delivered:
+                    w.feed(w.frame(10, fp.payload))
+                last_ref = t_data
+                answered += 1
+                # (the rounds after this one show whether exactly one ping chain is alive)
             else:
                 w.feed(w.frame(10, fp.payload))
-            if not data_does_not_count:
+            if not data_does_not_count and not (c["answer"] == "data+pong" and c["restart"]):
                 last_ref = w.d.now()
                 answered += 1
         if last:
@@ -482,7 +500,7 @@ def strategy():
         c = {"sc": sc, "server": draw(st.booleans()), "offset": draw(st.sampled_from([0.0, 0.25, 0.5, 0.75, 0.999, 3.3])),
              "open_to": draw(grid), "close_to": draw(grid), "drop_to": draw(grid), "ping_iv": 0, "ping_to": 0, "restart": draw(st.booleans()),
              "p1": draw(pos), "p2": draw(pos), "idle": draw(st.sampled_from([0.0, 0.4, 1.7])), "rounds": draw(st.integers(1, 4)), "frac": draw(st.sampled_from([0.0, 0.5, 1.0])),
-             "answer": draw(st.sampled_from(["pong", "data"])), "initiator": draw(st.sampled_from(["local", "peer"]))}
+             "answer": draw(st.sampled_from(["pong", "data", "data+pong"])), "initiator": draw(st.sampled_from(["local", "peer"]))}
         if sc in ("ping", "ping-while-closing", "ping-then-close") or draw(st.integers(0, 3)) == 0:
             c["ping_iv"] = draw(st.sampled_from([1, 2, 5] if sc != "close" else [5]))
             c["ping_to"] = draw(st.sampled_from(GRID if sc == "ping" else [1, 2, 5]))
